@@ -505,15 +505,16 @@ class DiskSystem(System):
     name = "disk"
     serves = ("C11", "C01", "C05", "C06", "C12", "C13", "C14", "C19")
     rule = (
-        "BloomFilterOnDisk, geometries (10,0.05) [63 bits: partial last byte] and (3,0.3). Part A: every history of "
+        'BloomFilterOnDisk, geometries (10,0.05) [63 bits: partial last byte] and (3,0.3). Part A: every history of '
         "<= 3 (thorough 4) operations over {add a, add b, add a again, close, export to another path}; every 'line' "
-        "trace event of library code while an operation is in progress is a crash point; the backing file read "
-        "through a fresh descriptor at that instant is what a killed process leaves (validated against real SIGKILLed "
-        "children); each distinct (snapshot, completed adds, in-flight op) is recovered and checked. Part B: every "
-        "valid history of <= 4 (thorough 5) operations over {add a/b/c, close, reopen from the same directory / by "
-        "absolute path from another directory / by relative path from the parent directory, export from another "
-        "directory, clear, query batch} for files created by bare name, in a sub-directory, by absolute path; "
-        "oracles after the last operation. non-trivial = snapshot taken strictly inside an operation."
+        'trace event of library code while an operation is in progress is a crash point; the backing file read '
+        'through a fresh descriptor at that instant is what a killed process leaves (validated against real SIGKILLed '
+        'children); each distinct (snapshot, completed adds, in-flight op) is recovered and checked. Part B: every '
+        'valid history of <= 4 (thorough 5) operations over {add a/b/c, an add that raises part-way, close, reopen from the same '
+        'directory / by absolute path from another directory / by relative path from the parent directory, export from another '
+        'directory, clear, query batch incl. checked set operations} for files created by bare name, in a sub-directory, by '
+        'absolute path, plus one configuration with a supplied md5 strategy; oracles after the last operation. non-trivial = '
+        'snapshot taken strictly inside an operation / history containing a reopen.'
     )
 
     def configs(self, prop, tier, seed):
